@@ -64,6 +64,16 @@ class Session:
         self.cur = 0
         self.mutated = False
         self.op_index = -1
+        if trace.get("cfg", {}).get("preinit"):
+            # the element objects were used before (e.g. in an earlier simulation): they carry variables
+            from sym_metanet.engines.numpy import Engine as _NE
+
+            for r, o in self.U.objs.items():
+                if r[0] in "lod":
+                    try:
+                        o.init_vars(engine=_NE("rand"))
+                    except Exception:
+                        pass
 
     net = property(lambda self: self.nets[self.cur])
     model = property(lambda self: self.models[self.cur], lambda self, m: self.models.__setitem__(self.cur, m))
@@ -1100,7 +1110,7 @@ def generate(prop: str, run_seed: int, tier: str = "quick") -> dict:
             for rop in gen_repair_ops(rng, U, model):
                 push(rop)
                 sprinkle()
-    cfg = {"enabled": sorted(enabled), "topology": topo, "big": big}
+    cfg = {"enabled": sorted(enabled), "topology": topo, "big": big, "preinit": rng.random() < 0.3}
     if rng.random() < 0.25:
         # a second network over the same element objects receives part of the traffic
         cfg["two_networks"] = True
